@@ -62,6 +62,7 @@ class _Herd(Agent):
     """An agent class with class components (see op_agent)."""
 
 
+_Herd.tag = 7          # the class's default tag (instances created without a tag get it)
 _Herd.add_class_component(A(None, None))
 _Herd.add_class_component(Z(None, None))
 
@@ -253,9 +254,10 @@ class Driver:
         # every third agent is an instance of a subclass whose CLASS carries components of the types A and C (class components
         # belong to the class; an agent carries the components attached to itself)
         cls = _Herd if (a[1] + len(self.agents)) % 3 == 2 else Agent
+        want = cls.tag if tag is None else tag        # the tag asked for: the given one, else the class default at this moment
         ag = cls(a[0], mod) if tag is None else cls(a[0], mod, tag=_fresh(tag))
         self.agents[a] = ag
-        self.emit({"op": "new_agent", "a": list(a), "m": m, "tag": ag.tag})
+        self.emit({"op": "new_agent", "a": list(a), "m": m, "tag": want})
 
     def op_attach(self, a, T, serial, reg):
         ag = self.agents[tuple(a)]
@@ -410,9 +412,18 @@ class Driver:
             kw = dict(leeway=conv(l), x_leeway=conv(al[0]), y_leeway=conv(al[1]), z_leeway=conv(al[2]))
             r = self.env(m).get_agents_at(*args, **kw)
             res = [self.obj_of(x) for x in r]
-            r.clear()                         # the caller may edit the list it got ...
-            r.append(None)
-            res2 = [self.obj_of(x) for x in self.env(m).get_agents_at(*args, **kw)]     # ... and ask the same question again
+            prev = getattr(self, "_kept", None)
+            if prev is not None and [self.obj_of(x) for x in prev[0]] != prev[1]:
+                res = res + [["!earlier answer changed", -1]]       # an answer the caller kept is not touched by later queries
+            self.nq = getattr(self, "nq", 0) + 1
+            if self.nq % 2:
+                self._kept = (r, list(res))         # this answer is kept as it is ...
+                res2 = list(res)
+            else:
+                self._kept = None
+                r.clear()                         # ... this one is edited by the caller,
+                r.append(None)
+                res2 = [self.obj_of(x) for x in self.env(m).get_agents_at(*args, **kw)]     # who then asks the same question again
         except Exception as e:  # noqa: BLE001
             exc = e
         self.emit({"op": "agents_at", "m": m, "q": list(q), "l": l, "al": list(al), "res": res, "res2": res2,
@@ -438,6 +449,27 @@ class Driver:
         except Exception as e:  # noqa: BLE001
             exc = e
         self.emit({"op": "move_sat", "ext": [repr(e) for e in ext], "start": [repr(v) for v in start], "dirs": list(dirs), "res": res}, exc)
+
+    def op_move_wrap(self, ext, start, delta):
+        """A separate continuous WRAPPING world with arbitrary float extents: a relative move must land exactly at
+        (old + delta) modulo extent - the float the statement's own formula gives - on every axis."""
+        mod = Model()
+        w = SpaceWorld(mod, *ext, wrap_env=True)
+        mod.set_environment(w)
+        ag = Agent("s", mod)
+        exc = None
+        res = ["?", "?", "?"]
+        try:
+            w.add_agent(ag, *start)
+            before = ag[PositionComponent].xyz()
+            w.move(ag, *delta)
+            after = ag[PositionComponent].xyz()
+            for i in range(3):
+                res[i] = "exact" if after[i] == (before[i] + delta[i]) % ext[i] else "off:%r" % (after[i],)
+        except Exception as e:  # noqa: BLE001
+            exc = e
+        self.emit({"op": "move_wrap", "ext": [repr(e) for e in ext], "start": [repr(v) for v in start],
+                   "delta": [repr(v) for v in delta], "res": res}, exc)
 
     def op_dims(self, m):
         mod, cls, _ = self.models[m]
@@ -583,7 +615,7 @@ def random_run(rng, *, kinds=("plain",), n_models=2, n_ids=3, length=40, mods="c
         do(["model", m, cls, ext, wrap, late])
         if late:
             pending_install.append(m)
-    ids = ["x", "", "z", "0", "v", "u"][:n_ids]       # identifiers are strings - the empty one and "0" included
+    ids = ["x", "", "ENVIRONMENT", "0", "v", "u"][:n_ids]       # identifiers are strings - the empty one, "0" and the environment's own id included
     objs = {m: [] for m in worlds}
     serial = {}
     cser = [0]
@@ -646,6 +678,14 @@ def random_run(rng, *, kinds=("plain",), n_models=2, n_ids=3, length=40, mods="c
             reg = res and (mods == "sanctioned" or rng.random() < 0.5)
             cser[0] += 1
             do(["attach", a, T, cser[0], reg])
+        elif op == "detach" and mods in ("any", "raw", "sanctioned") and resident(a) and rng.random() < 0.3:
+            # a resident swaps a component for a fresh instance of the same type: detach the old one, attach and register the new one
+            have = [t for t in LISTED if TYPES[t] in d.agents[tuple(a)]]
+            if have:
+                T = rng.choice(have)
+                do(["detach", a, T, mods == "sanctioned"])
+                cser[0] += 1
+                do(["attach", a, T, cser[0], True])
         elif op == "detach":
             T = rng.choice(LISTED)
             res = resident(a)
